@@ -1,0 +1,6 @@
+//go:build !verif
+
+package compile
+
+// verifOrder is a verification hook; a no-op unless built with -tags verif.
+func verifOrder(site int, key string) {}
